@@ -26,7 +26,7 @@ MARK = 'Mqxyz'
 MARK2 = 'Mqabc'
 EN = chr(8211)
 
-PAYLOADS = ['caf\u00e9 \u00fc<x>', '&lt-width;', '&amp-height;', 'x\U0001d518y<', '<b>x</b>', '</p>', '<script>alert(1)</script>', '&amp;', '&lt;', '&#60;', '&x-width;', '" onmouseover="x',
+PAYLOADS = ['caf\u00e9 \u00fc<x>', '&lt-width;', '&amp-height;', '<a href="x?a=1&b=2">t</a>', 'a < b && c > d', 'x\U0001d518y<', '<b>x</b>', '</p>', '<script>alert(1)</script>', '&amp;', '&lt;', '&#60;', '&x-width;', '" onmouseover="x',
             ']]>', '<!--', 'a<b>c', '\u00e9\u20ac', 'u\u2028v', '&copy', '<a href="x">y</a>']
 
 
